@@ -158,6 +158,9 @@ fn sync_orders(rep: &Report) {
         ("status", Some("pending".into())),
         ("modified", Some(now.to_string())),
         ("status", None),
+        // the same kind of edit made through Replica::create_task on the existing task (a
+        // get-or-create call) and the Task API
+        ("via-create_task", None),
     ];
     let mut n = 0u64;
     let mut overlapping = 0u64;
@@ -187,6 +190,17 @@ fn sync_orders(rep: &Report) {
                         let a = Act::Update { r: other, t: 0, p: p.to_string(), v: v.clone(), ts: 5 };
                         // Act uses tid(); build the operation directly for our uuid
                         let _ = a;
+                        if *p == "via-create_task" {
+                            crate::util::block_on(with_replica(&mut w.reps[other], Ctl::new(), async |rp| {
+                                let mut ops_ = vec![];
+                                let mut t = rp.create_task(u, &mut ops_).await.unwrap();
+                                t.set_description("edited elsewhere".into(), &mut ops_).unwrap();
+                                rp.commit_operations(ops_).await
+                            }))
+                            .unwrap();
+                            w.obs[other] = Arc::new(obs_of(&mut w.reps[other]));
+                            continue;
+                        }
                         let oldv = w.obs[other].tasks.get(&u).and_then(|m| m.get(*p)).cloned();
                         let op = Operation::Update { uuid: u, property: p.to_string(), old_value: oldv, value: v.clone(), timestamp: ts(5) };
                         crate::util::block_on(with_replica(&mut w.reps[other], Ctl::new(), async |rp| rp.commit_operations(vec![op]).await)).unwrap();
